@@ -189,6 +189,32 @@ func (a *VSA) eval(v ssa.Value, t tuple, depth int) (int64, bool) {
 		return wrapInt(o, x.Type()), true
 	case *ssa.ChangeType:
 		return a.eval(x.X, t, depth+1)
+	case *ssa.Phi:
+		// short-circuit && / || used as a value
+		if x.Comment != "&&" && x.Comment != "||" {
+			return 0, false
+		}
+		blk := x.Block()
+		n := len(x.Edges)
+		for i := 0; i < n-1; i++ {
+			cv, ok := a.eval(x.Edges[i], t, depth+1)
+			if !ok {
+				return 0, false
+			}
+			pred := blk.Preds[i]
+			ifi, isIf := pred.Instrs[len(pred.Instrs)-1].(*ssa.If)
+			if !isIf {
+				return 0, false
+			}
+			c, ok := a.eval(ifi.Cond, t, depth+1)
+			if !ok {
+				return 0, false
+			}
+			if (c != 0) == (pred.Succs[0] == blk) {
+				return cv, true
+			}
+		}
+		return a.eval(x.Edges[n-1], t, depth+1)
 	case *ssa.Call:
 		callee := StaticRepoCallee(&x.Call)
 		if callee == nil || len(callee.Blocks) != 1 {
